@@ -284,4 +284,33 @@ BENIGN = [
             lo: lo.0.to_string(),
             hi: hi.0.to_string(),
         }""", silent=["C14", "C16"]),
+    # ---- service / CLI rewrites
+    dict(name="b-register-hash-direct", file=SUSER, old="""    user.password = hashed_pw;
+
+    let result = user_coll
+        .insert_one(
+            User {
+                username: user.username,
+                password: Some(user.password),
+            },
+            None,
+        )
+        .await;""", new="""    let new_user = User {
+        username: user.username,
+        password: Some(hashed_pw),
+    };
+    let result = user_coll.insert_one(new_user, None).await;""", silent=["C17"]),
+    dict(name="b-delete-account-bind-filter", file=SUSER, old="""                match adf_coll
+                    .delete_many(doc! { "username": &username }, None)
+                    .await
+                {""", new="""                let owned_by_user = doc! { "username": &username };
+                match adf_coll.delete_many(owned_by_user, None).await {""", silent=["C17"]),
+    dict(name="b-cli-complete-for-each", file=MAIN, old="""                if self.complete {
+                    for model in adf.complete() {
+                        print!("{}", adf.print_interpretation(&model));
+                    }
+                }""", new="""                if self.complete {
+                    adf.complete()
+                        .for_each(|model| print!("{}", adf.print_interpretation(&model)));
+                }""", silent=["C15"]),
 ]
